@@ -125,10 +125,11 @@ func (r *SortReg) seqSort(elem string, elemGo types.Type, name string) *SeqInfo 
 	d("(assert (forall ((s %s) (k Int) (v %s)) (! (= (%s (%s s k v)) (%s s)) :pattern ((%s s k v)))))", name, elem, si.Len, si.Upd, si.Len, si.Upd)
 	d("(assert (forall ((s %s) (k Int) (v %s) (i Int)) (! (= (%s (%s s k v) i) (ite (= i k) v (%s s i))) :pattern ((%s (%s s k v) i)))))",
 		name, elem, si.At, si.Upd, si.At, si.At, si.Upd)
-	// extensionality, triggered by the marker ext_<sort>
+	// extensionality (skolemised), triggered by the marker ext_<sort>
 	d("(declare-fun ext_%s (%s %s) Bool)", name, name, name)
-	d("(assert (forall ((a %s) (b %s)) (! (=> (and (ext_%s a b) (= (%s a) (%s b)) (forall ((i Int)) (=> (and (<= 0 i) (< i (%s a))) (= (%s a i) (%s b i))))) (= a b)) :pattern ((ext_%s a b)))))",
-		name, name, name, si.Len, si.Len, si.Len, si.At, si.At, name)
+	d("(declare-fun extd_%s (%s %s) Int)", name, name, name)
+	d("(assert (forall ((a %s) (b %s)) (! (=> (and (ext_%s a b) (= (%s a) (%s b)) (= (%s a) (%s b)) (=> (and (<= 0 (extd_%s a b)) (< (extd_%s a b) (%s a))) (= (%s a (extd_%s a b)) (%s b (extd_%s a b))))) (= a b)) :pattern ((ext_%s a b)))))",
+		name, name, name, si.Len, si.Len, si.IsNil, si.IsNil, name, name, si.Len, si.At, name, si.At, name, name)
 	return si
 }
 
